@@ -299,6 +299,8 @@ G_Term(cls, m, n, b, seed, depth, mode) ==
        \* concatenations whose FIRST block is an identity (its product is the right-hand side itself): [I | B] and [I ; B]
        [] cls = "CatICols" -> Op_Cat(<<Op_Identity(n, b1), G_Term("Dense", n, n, b1, seed + 3, 0, 0)>>, -1)
        [] cls = "CatIRows" -> Op_Cat(<<Op_Identity(n, b1), G_Term("Dense", n, n, b1, seed + 3, 0, 0)>>, -2)
+       \* a square Kronecker product of RECTANGULAR factors: (1 x 2) kron (n x n/2)
+       [] cls = "KronRect" -> Op_Kron(<<G_Term("Dense", 1, 2, b1, seed + 3, 0, 0), G_Term("Dense", n, n \div 2, b1, seed + 5, 0, 0)>>)
        [] cls = "InterpLeft" ->
             LET km == 2 + (seed % 2) p == 1 + (seed % 2)
             IN Op_InterpLeft(G_Term("Dense", km, n, b, seed + 3, 0, 0), G_InterpIdx(m, p, km, b, seed), G_Small(b \o <<m, p>>, seed + 2))
@@ -326,7 +328,7 @@ G_AllClasses == <<"Dense", "User", "Diag", "ConstDiag", "Identity", "Zero", "Toe
 G_SquareOnly == {"KronAddedKronConstDiag", "BlockInterDiag", "CholDiag", "KronAddedKronDiag", "MixedSpectrum", "AddedDiagKBc", "TriRepeat", "BlockDiagRepeat", "BlockInterRepeat", "SumBatchRepeat", "AddedDiagRootI", "AddedDiagKronI", "CholKronTriU", "LowRankHuge", "ConstMulI", "BlockDiagConstMulI", "InterpRootSameIdx", "MatmulTri", "LRRAddedDiagI", "AddedDiagI", "SumI", "Diag", "ConstDiag", "Identity", "Toeplitz", "Tri", "Chol", "CholU", "Root", "LowRankRoot", "Kron3", "KronTri",
                  "KronDiag", "KronAddedDiag", "SumKron", "AddedDiag", "LRRAddedDiag", "PsdSum", "Mul", "BlockDiag",
                  "BlockInter", "Perm", "TransPerm"}
-G_LeafClasses == {"KronAddedKronConstDiag", "InterpLeft", "CatICols", "CatIRows", "BlockInterDiag", "CholDiag", "KronAddedKronDiag", "MixedSpectrum", "AddedDiagKBc", "TriRepeat", "BlockDiagRepeat", "BlockInterRepeat", "SumBatchRepeat", "KernelM", "AddedDiagRootI", "AddedDiagKronI", "ConstMulBc", "CholKronTriU", "LowRankHuge", "ConstMulI", "BlockDiagConstMulI", "InterpRootSameIdx", "MixedDef", "AddedDiagRootConst", "AddedDiagBig", "DenseBig", "KronCholU", "BlockDiagCholU", "SumInterp", "MatmulTri", "LRRAddedDiagI", "AddedDiagI", "SumI", "Dense", "User", "Diag", "ConstDiag", "Identity", "Zero", "Toeplitz", "Chol", "CholU", "SumZ", "LowRankRoot", "KronTri",
+G_LeafClasses == {"KronRect", "KronAddedKronConstDiag", "InterpLeft", "CatICols", "CatIRows", "BlockInterDiag", "CholDiag", "KronAddedKronDiag", "MixedSpectrum", "AddedDiagKBc", "TriRepeat", "BlockDiagRepeat", "BlockInterRepeat", "SumBatchRepeat", "KernelM", "AddedDiagRootI", "AddedDiagKronI", "ConstMulBc", "CholKronTriU", "LowRankHuge", "ConstMulI", "BlockDiagConstMulI", "InterpRootSameIdx", "MixedDef", "AddedDiagRootConst", "AddedDiagBig", "DenseBig", "KronCholU", "BlockDiagCholU", "SumInterp", "MatmulTri", "LRRAddedDiagI", "AddedDiagI", "SumI", "Dense", "User", "Diag", "ConstDiag", "Identity", "Zero", "Toeplitz", "Chol", "CholU", "SumZ", "LowRankRoot", "KronTri",
                   "KronDiag", "SumKron", "LRRAddedDiag", "Perm", "TransPerm", "Kernel"}
 \* classes that only exist for PSD arguments
 G_PsdOnly == {"CholDiag", "MixedSpectrum", "BlockDiagRepeat", "BlockInterRepeat", "SumBatchRepeat", "CholKronTriU", "Chol", "CholU", "PsdSum", "Mul"}
